@@ -3,8 +3,8 @@ package chains
 import (
 	"bytes"
 	"database/sql"
-	"encoding/json"
 	"database/sql/driver"
+	"encoding/json"
 	"fmt"
 	"reflect"
 	"strconv"
@@ -46,7 +46,8 @@ const (
 	KValuer     = "valuer"
 	KPValuer    = "pvaluer"
 	KNilPValuer = "nilpvaluer"
-	KGormValuer = "gval" // gorm.Valuer rendering "(? || ?)" with S and I
+	KGormValuer = "gval"    // gorm.Valuer rendering "(? || ?)" with S and I
+	KReenter    = "reenter" // chains.Reenter: a gorm.Valuer that runs ReenterHook while the statement is built
 	// slice kinds
 	KStrs   = "strs"
 	KInts   = "ints"
@@ -142,6 +143,8 @@ func (v Val) Go() interface{} {
 		return (*Wrapped)(nil)
 	case KGormValuer:
 		return Concat{A: v.S, B: v.I}
+	case KReenter:
+		return Reenter{V: v.I}
 	case KStrs:
 		out := make([]string, len(v.L))
 		for i, e := range v.L {
@@ -205,7 +208,7 @@ func (v Val) Leaves() []interface{} {
 	switch v.K {
 	case KStr, KPStr, KNullStr, KValuer, KPValuer:
 		return []interface{}{v.S}
-	case KInt, KI64, KUint, KPI64, KNullI64:
+	case KInt, KI64, KUint, KPI64, KNullI64, KReenter:
 		return []interface{}{v.I}
 	case KF64:
 		return []interface{}{v.F}
@@ -232,7 +235,7 @@ func (v Val) Tokens() []string {
 	switch v.K {
 	case KStr, KPStr, KNullStr, KValuer, KPValuer, KBytes, KHash, KRaw:
 		return []string{tokenOf(v.S)}
-	case KInt, KI64, KUint, KPI64, KNullI64:
+	case KInt, KI64, KUint, KPI64, KNullI64, KReenter:
 		if v.I < 1000000 {
 			return nil // small keys of seeded rows are not sentinels
 		}
@@ -271,7 +274,7 @@ func (v Val) String() string {
 	switch v.K {
 	case KStr, KPStr, KNullStr, KValuer, KPValuer, KBytes, KHash, KRaw:
 		return v.K + ":" + strconv.Quote(v.S)
-	case KInt, KI64, KUint, KPI64, KNullI64, KTime:
+	case KInt, KI64, KUint, KPI64, KNullI64, KTime, KReenter:
 		return v.K + ":" + strconv.FormatInt(v.I, 10)
 	case KF64:
 		return v.K + ":" + strconv.FormatFloat(v.F, 'g', -1, 64)
